@@ -3,7 +3,7 @@ import json
 
 from lib import framework as fw, mcharness as mc, qconv
 
-REQ = ['Model.MCRows', 'Model.MCStats']
+REQ = ['Model.MCRows', 'Model.MCStats', 'Proofs.MCRowsProofs']
 TOL = '(1#1000000000)'
 STATS = ['minimum', 'maximum', 'median', 'average', 'mean', 'standard deviation']
 META = {
@@ -62,7 +62,7 @@ def _inp(run, **extra):
 
 
 def analyse(ctx, run, bools, reports):
-    inputs, outputs, _ = mc.parse_settings(run.settings)
+    inputs, outputs, iterations = mc.parse_settings(run.settings)
     names = [n for n, w, _ in inputs if mc.dist_of(w)]
     part = f'{run.program}-rows'
     if run.result_text is None:
@@ -77,6 +77,18 @@ def analyse(ctx, run, bools, reports):
     if header != outputs + [n for n, _, _ in inputs]:
         ctx.violate('property', 'alignment:header', 'header columns are not the requested outputs followed by the sampled inputs, the order in '
                     'which every row is written', inp=_inp(run), expected=outputs + [n for n, _, _ in inputs], observed=header)
+    # --- a failing iteration costs its own row only: every one of the ITERATIONS work packages was started, and the file holds
+    #     result_rows (C14_failure_local) of the per-iteration outcomes (rows dropped by the lock layer are C13's)
+    if len(run.tasks) != iterations:
+        ctx.violate('property', 'failure-local:iterations-not-run',
+                    f'{len(run.tasks)} of the {iterations} iterations were executed ({len(run.tasks) - len(run.ok_tasks)} failed): iterations that '
+                    'did not fail themselves left no row', inp=_inp(run), expected=iterations,
+                    observed={'started': len(run.tasks), 'failed': len(run.tasks) - len(run.ok_tasks), 'rows': len(rows)})
+    lock_lost = sum(1 for t in run.ok_tasks if mc.lock_loss_reason(t) in ('lock-timeout',))
+    flags = _slist('Some tt' if t['status'] == 'ok' else 'None' for t in run.tasks)
+    bools.append((f'Nat.eqb (List.length (result_rows (fun t => nth t {flags} None) (seq 0 {len(run.tasks)}%nat))) {len(rows) + lock_lost}%nat',
+                  lambda: ctx.violate('property', 'failure-local:rowcount', f'{len(rows)} rows for {len(run.ok_tasks)} iterations whose own simulation '
+                                      f'succeeded ({len(run.tasks)} executed)', inp=_inp(run), expected=len(run.ok_tasks), observed=len(rows))))
     # --- every successful work package left one well-formed row, nothing else is in the row area
     found_all = None
     if any(t['trace'] for t in run.ok_tasks):
